@@ -1,5 +1,5 @@
 use super::{DbCollection, DbCollectionIden, StoreIden, data, db::MemStore};
-use crate::sync::RwLock;
+use crate::sync::{Mutex, RwLock};
 use crate::{
     ActError, Result, ShareLock, Workflow,
     store::{Model, Package},
@@ -14,6 +14,9 @@ pub struct DynDbSetRef<T>(Arc<dyn DbCollection<Item = T>>);
 
 pub struct Store {
     collections: ShareLock<HashMap<StoreIden, Arc<dyn Any + Send + Sync + 'static>>>,
+    // a message record is changed by reading it, changing the copy and writing it back: the
+    // tick (redelivery) and the clients (ack, actions) do that one at a time
+    messages_lock: Mutex<()>,
 }
 
 impl Default for Store {
@@ -26,7 +29,13 @@ impl Store {
     pub fn new() -> Self {
         Self {
             collections: Arc::new(RwLock::new(HashMap::new())),
+            messages_lock: Mutex::new(()),
         }
+    }
+
+    /// held while a message record is read, changed and written back
+    pub fn lock_messages(&self) -> std::sync::MutexGuard<'_, ()> {
+        self.messages_lock.lock().unwrap()
     }
 
     pub fn collection<DATA>(&self) -> Arc<dyn DbCollection<Item = DATA>>
